@@ -126,6 +126,8 @@ class Registry:
         self.by_target = {}
         self.methods = {}  # (class name, method) -> Contract
         self.functions = {}
+        self.bases = {"DefaultOperatorResolver": ["OperatorResolver"], "ConstraintOperatorResolver": ["DefaultOperatorResolver"],
+                      "DefaultFormulaParser": ["FormulaParser"]}
         self.builtins = {"len", "range", "list", "tuple", "set", "dict", "sorted", "enumerate", "isinstance", "zip", "str",
                          "int", "bool", "min", "max", "sum", "any", "all", "next", "iter", "reversed", "slice", "repr", "hash",
                          "abs", "frozenset", "print", "cast", "type", "getattr", "hasattr", "float", "id", "map", "filter"}
@@ -154,7 +156,18 @@ class Registry:
         return c
 
     def lookup_method(self, cls, m):
-        return self.methods.get((cls, m))
+        seen = set()
+        todo = [cls]
+        while todo:
+            c = todo.pop(0)
+            if c in seen:
+                continue
+            seen.add(c)
+            k = self.methods.get((c, m))
+            if k is not None:
+                return k
+            todo.extend(self.bases.get(c, ()))
+        return None
 
     def lookup_function(self, name):
         return self.functions.get(name)
